@@ -888,6 +888,88 @@ def user_node_rules(M, rec, rng, n_nets, before_case=None, engine_kinds=("numpy"
                 rec.count("steps_with_a_user_defined_node_rule_raised")
 
 
+def user_engine_laws(M, rec, rng, n_nets, before_case=None, symvals=None):
+    """User-defined engines (both families) that bring their OWN destination law and their OWN queue update (a finite storage
+    space) - the primitives `destinations.get_congested_downstream_density` and `origins.step_queue` overridden: whatever law an
+    element needs is the one of the engine in use (passed explicitly or selected)."""
+    import copy
+
+    import casadi as cs
+    import numpy as np
+
+    import sym_metanet.engines.casadi as EC
+    import sym_metanet.engines.numpy as EN
+    from sym_metanet import engines as E
+
+    storage = 40.0
+
+    class DestNP(EN.DestinationsEngine):
+        @staticmethod
+        def get_congested_downstream_density(rho_last, rho_destination, rho_crit):
+            return 0.5 * (np.maximum(np.minimum(rho_last, rho_crit), rho_destination) + rho_destination)
+
+    class OrgNP(EN.OriginsEngine):
+        @staticmethod
+        def step_queue(w, d, q, T):
+            return np.minimum(w + T * (d - q), storage)
+
+    class UserNP(EN.Engine):
+        destinations = property(lambda self: DestNP)
+        origins = property(lambda self: OrgNP)
+
+    class DestCS(EC.DestinationsEngine):
+        @staticmethod
+        def get_congested_downstream_density(rho_last, rho_destination, rho_crit):
+            return 0.5 * (cs.fmax(cs.fmin(rho_last, rho_crit), rho_destination) + rho_destination)
+
+    class OrgCS(EC.OriginsEngine):
+        @staticmethod
+        def step_queue(w, d, q, T):
+            return cs.fmin(w + T * (d - q), storage)
+
+    class UserCS(EC.Engine):
+        destinations = property(lambda self: DestCS)
+        origins = property(lambda self: OrgCS)
+
+    g = G.NetGen(rng)
+    sh = shapes_cycle()
+    saved = E.get_current_engine()
+    try:
+        for it in range(n_nets):
+            desc = copy.deepcopy(g.all_kinds_network() if it % 3 == 0 else g.network(next(sh))[1])
+            if any(o.get("user") or o.get("user_cap_flow") is not None for o in desc["origins"]) or any(l.get("user_cap") is not None or l.get("user_reorder") for l in desc["links"]):
+                continue
+            desc["user_engine_laws"] = {"storage": storage}
+            built = D.build(M, desc, D.random_ops(desc, rng))
+            kind = ("numpy", "SX", "numpy", "MX")[it % 4]
+            eng = UserNP() if kind == "numpy" else UserCS(kind)
+            how = ("explicit", "selected")[(it // 4) % 2]
+            E.use(eng if how == "selected" else saved)
+            _, vals = g.values(desc, "interior", allow_inf=False)
+            for o in desc["origins"]:  # some queues run into the storage limit
+                if "w" in vals.get(o["id"], {}) and rng.random() < 0.5:
+                    vals[o["id"]].update(w=rng.uniform(30.0, 39.0), d=rng.uniform(4000.0, 8000.0))
+            pars = g.pars()
+            case = {"desc": desc, "vals": vals, "pars": pars, "opts": {}, "engine": kind, "user_engine_laws": how}
+            if before_case:
+                before_case(case, built)
+            try:
+                kw_ = dict(drive.step_pars(pars))
+                if how == "explicit":
+                    kw_["engine"] = eng
+                if kind == "numpy":
+                    built.net.step(init_conditions=drive.np_init(built, vals, "vec1"), **kw_)
+                else:
+                    symvals.clear()
+                    ic, _syms = drive.sym_init(M, built, kind, symvals, vals)
+                    built.net.step(init_conditions=ic, **kw_)
+                rec.count("steps_with_a_user_engine_that_has_its_own_destination_and_queue_laws")
+            except Exception:
+                rec.count("steps_with_user_engine_laws_raised")
+    finally:
+        E.use(saved)
+
+
 def closed_loop(M, rec, rng, n_sims, steps, on_step=None, before_case=None):
     """Closed-loop NumPy simulations: next states fed back, peaked demand profiles,
     piecewise-constant random controls."""
